@@ -69,7 +69,7 @@ def gen_cases(tier, seed):
                       "dtype": rnd.choice(["uint8", "uint16", "float32", "int16"]) if not seg
                       else rnd.choice(["uint8", "uint16", "uint32", "uint64"]),
                       "voxel": rnd.choice([[1, 1, 1], [1, 1, 1], [1, 1, 2], [0.5, 0.5, 1.5],
-                                           [2, 1, 1]]),
+                                           [2, 1, 1], [0.01, 0.01, 0.64], [0.5, 0.004, 0.004]]),
                       "method": method,
                       "type_opt": rnd.random() < 0.7, "cseg": seg and rnd.random() < 0.6,
                       "outside": rnd.choice([None, None, 0.0]),
@@ -86,6 +86,25 @@ def gen_cases(tier, seed):
                       "orientation": rnd.choice(["RAS", "LPI", "ASR", "PIR"]),
                       "sharding": rnd.choice(["1,1,0", "0,2,1", "2,0,0"]),
                       "vseed": rnd.randrange(2 ** 32)})
+        if route != "pair" and rnd.random() < 0.5:
+            # documented options of generate-scales-info: other chunk sizes (down to one voxel
+            # per chunk, whose pyramid compute-scales refuses) and a bounded number of scales
+            t = rnd.choice([1, 2, 8, 16, 32, 128])
+            cases[-1]["target"] = t
+            cases[-1]["max_scales"] = rnd.choice([None, None, 2, 3])
+            if t == 1:
+                cases[-1]["shape"] = [rnd.randint(9, 16), rnd.randint(3, 7), rnd.randint(2, 5)]
+            elif t == 2:
+                cases[-1]["shape"] = [rnd.randint(20, 40), rnd.randint(8, 16),
+                                      rnd.randint(4, 10)]
+    # directed: strongly anisotropic voxels (thin chunks) with compressed_segmentation through
+    # the all-in-one/step pair; one voxel per chunk through the step-by-step route
+    cases[2].update({"route": "pair", "seg": True, "cseg": True, "type_opt": True,
+                     "dtype": "uint32", "voxel": [0.01, 0.01, 0.64], "method": "majority",
+                     "shape": [150, 30, 20], "scal": None, "input_max": None})
+    cases[2].pop("target", None)
+    cases[3].update({"route": "slices", "target": 1, "max_scales": None,
+                     "shape": [12, 5, 3]})
     # directed: header scaling with --ignore-scaling through the all-in-one/step pair
     for k, dtn in ((0, "uint8"), (1, "int16")):
         cases[k].update({"route": "pair", "seg": False, "cseg": False, "dtype": dtn,
@@ -257,8 +276,15 @@ def run_case(case):
             scaling += ["--ignore-scaling"]
             obs["ignore_scaling_runs"] = 1
         route = case["route"]
+        gsi = []
+        if case.get("target"):
+            gsi += ["--target-chunk-size", str(case["target"])]
+            obs["target_chunk_sizes"] = {str(case["target"]): 1}
+        if case.get("max_scales"):
+            gsi += ["--max-scales", str(case["max_scales"])]
+        obs["strongly_anisotropic_voxels"] = int(max(case["voxel"]) / min(case["voxel"]) >= 64)
         ctx = (f"{route} volume {shape} {dt.name} voxel {case['voxel']} options "
-               f"{tyenc + store + down + scaling}")
+               f"{tyenc + store + down + scaling + gsi}")
         A, B = os.path.join(top, "A"), os.path.join(top, "B")
         if route == "pair":
             run("volume_to_precomputed_pyramid", *tyenc, *store1, *down, *scaling, fn, A)
@@ -302,7 +328,7 @@ def run_case(case):
                                    "resolution": [x * 1e6 for x in case["voxel"]]}]}
             with open(os.path.join(B, "info_fullres.json"), "w") as fh:
                 json.dump(fullres, fh)
-            run("generate_scales_info", os.path.join(B, "info_fullres.json"), B)
+            run("generate_scales_info", *gsi, os.path.join(B, "info_fullres.json"), B)
             run("slices_to_precomputed", *store1, "--input-orientation", code, sd, B)
         else:   # sharded step-by-step route (isotropic voxels -> cubic chunks)
             aff = np.diag([1., 1., 1., 1.])
@@ -315,7 +341,8 @@ def run_case(case):
                 obs["sharded_destinations_spelled_as_file_urls"] = 1
             run("volume_to_precomputed", "--generate-info", "--sharding", case["sharding"],
                 *scaling, fn, Burl, expect_ok=False)
-            run("generate_scales_info", *tyenc, os.path.join(B, "info_fullres.json"), Burl)
+            run("generate_scales_info", *tyenc, *gsi, os.path.join(B, "info_fullres.json"),
+                Burl)
             run("volume_to_precomputed", *scaling, fn, Burl)
         if v:
             return {"violations": v[:3], "obs": obs}
@@ -335,7 +362,13 @@ def run_case(case):
             if not np.array_equal(got0, want0.astype(got0.dtype)):
                 v.append({"kind": "full-resolution-scale-differs-from-input",
                           "detail": f"{ctx}: {int((got0 != want0).sum())} voxels differ"})
-        run("compute_scales", *store1, *down, B)
+        rc_cs, _ = run("compute_scales", *store1, *down, B,
+                       expect_ok=case.get("target") != 1)
+        if case.get("target") == 1 and rc_cs != 0:
+            # a pyramid of one-voxel chunks is refused (documented limit of the dyadic
+            # downscaling); a zero status goes through the completeness audit below
+            obs["one_voxel_chunk_pyramids_refused"] = 1
+            return {"violations": v[:3], "obs": obs}
         if v:
             return {"violations": v[:3], "obs": obs}
         b, infoB, problems = _read(np, B)
@@ -371,7 +404,7 @@ def run_case(case):
             enc = "compressed_segmentation" if infoB["scales"][0]["encoding"] == "raw" \
                 else "raw"
             src_fullres = os.path.join(B, "info_fullres.json")
-            run("generate_scales_info", "--encoding", enc, src_fullres, Cdir)
+            run("generate_scales_info", "--encoding", enc, *gsi, src_fullres, Cdir)
             with open(os.path.join(Cdir, "info")) as fh:
                 infoC = json.load(fh)
             if route == "sharded":
@@ -518,4 +551,7 @@ def gates(obs, tier):
         and obs.get("child_write_chunk_events", 0) > 100,
         "event_logs_audited": obs.get("event_log_audits", 0) > 50,
         "header_scaling_ignored_on_request": obs.get("ignore_scaling_runs", 0) >= 2,
+        "other_target_chunk_sizes": len(obs.get("target_chunk_sizes", {})) >= 3,
+        "one_voxel_chunk_pyramid_attempted": obs.get("target_chunk_sizes", {}).get("1", 0) > 0,
+        "strongly_anisotropic_voxels": obs.get("strongly_anisotropic_voxels", 0) >= 3,
     }
